@@ -175,6 +175,55 @@ def _check_transpose_general(fails):
       if got_n is not None and (got_n.shape != want.shape or np.abs(got_n - want).max() > 1e-3):
         fails.append(dict(inputs=dict(cfg, layer='nnx.LinearGeneral'), observed='differs from the tensor contraction over the listed axes (kernel dims paired with the axes in ascending order) plus bias / from linen.DenseGeneral', violated='dense-formula'))
         return n
+  # DenseGeneral / LinearGeneral with batch dims and a free (neither batch nor contracted) dim: bias[b, f] goes with batch b
+  for B, R in ((3, 3), (2, 4)):
+    xb = rng.randn(B, R, 5).astype(np.float32)
+    kern = rng.randn(B, 5, 6).astype(np.float32)
+    bias = rng.randn(B, 6).astype(np.float32)
+    want = np.einsum('brc,bcf->brf', xb.astype(np.float64), kern.astype(np.float64)) + bias[:, None, :]
+    cfg = dict(axis=-1, batch_dims=(0,), input_shape=xb.shape, kernel_shape=kern.shape, bias_shape=bias.shape)
+    n += 2
+    try:
+      got_l = np.asarray(nn.DenseGeneral(features=6, axis=-1, batch_dims=(0,)).apply({'params': {'kernel': jnp.asarray(kern), 'bias': jnp.asarray(bias)}}, jnp.asarray(xb)))
+      lg = nnx.LinearGeneral(5, 6, axis=-1, batch_axis={0: B}, rngs=nnx.Rngs(0))
+      lg.kernel.value, lg.bias.value = jnp.asarray(kern), jnp.asarray(bias)
+      got_n = np.asarray(lg(jnp.asarray(xb)))
+    except Exception as e:  # noqa
+      fails.append(dict(inputs=cfg, observed=f'raised {e!r}'[:300], violated='dense-formula'))
+      return n
+    for tag, got in (('linen.DenseGeneral', got_l), ('nnx.LinearGeneral', got_n)):
+      if got.shape != want.shape or np.abs(got - want).max() > 1e-3:
+        fails.append(dict(inputs=dict(cfg, layer=tag), observed='differs from the batched contraction plus bias[b, f] (bias added along the wrong dimension?)', violated='dense-formula'))
+        return n
+  # BatchNorm: the call argument use_running_average wins over the attribute, also when it is an explicit False
+  xbn = rng.randn(8, 4).astype(np.float32) * 2.0 + 1.0
+  for attr in (None, False, True):
+    for arg in (None, False, True):
+      if attr is None and arg is None:
+        continue
+      use_avg = arg if arg is not None else attr
+      n += 1
+      cfg = dict(layer='BatchNorm', attribute_use_running_average=attr, call_use_running_average=arg)
+      try:
+        bn = nnx.BatchNorm(4, use_running_average=attr, momentum=0.9, rngs=nnx.Rngs(0))
+        bn.mean.value, bn.var.value = jnp.asarray([0.5, -0.5, 1.0, 0.0]), jnp.asarray([1.5, 0.5, 2.0, 1.0])
+        yn = np.asarray(bn(jnp.asarray(xbn)) if arg is None else bn(jnp.asarray(xbn), use_running_average=arg))
+        both = attr is not None and arg is not None       # linen refuses the flag given twice (merge_param); nnx lets the call win
+        lm = nn.BatchNorm(use_running_average=None if both else attr, momentum=0.9)
+        lv = {'params': {'scale': jnp.ones((4,)), 'bias': jnp.zeros((4,))}, 'batch_stats': {'mean': jnp.asarray([0.5, -0.5, 1.0, 0.0]), 'var': jnp.asarray([1.5, 0.5, 2.0, 1.0])}}
+        yl, upd = lm.apply(lv, jnp.asarray(xbn), **({} if arg is None else {'use_running_average': arg}), mutable=['batch_stats'])
+      except Exception as e:  # noqa
+        fails.append(dict(inputs=cfg, observed=f'raised {e!r}'[:300], violated='norm-formula'))
+        return n
+      m0, v0 = np.array([0.5, -0.5, 1.0, 0.0]), np.array([1.5, 0.5, 2.0, 1.0])
+      bm, bv = xbn.mean(0), xbn.var(0)
+      mu, var = (m0, v0) if use_avg else (bm, bv)
+      want = (xbn - mu) / np.sqrt(var + 1e-5)
+      want_mean = m0 if use_avg else 0.9 * m0 + 0.1 * bm
+      for tag, y, mean_after in (('nnx.BatchNorm', yn, np.asarray(bn.mean.value)), ('linen.BatchNorm', np.asarray(yl), np.asarray(upd['batch_stats']['mean']))):
+        if np.abs(y - want).max() > 2e-3 or np.abs(mean_after - want_mean).max() > 1e-4:
+          fails.append(dict(inputs=dict(cfg, layer=tag), observed=f'normalised with {"running" if not use_avg else "batch"} statistics / running mean {mean_after.tolist()} (expected {want_mean.tolist()}): the call argument must win over the attribute', violated='norm-formula'))
+          return n
   return n
 
 
@@ -328,7 +377,7 @@ def run(tier, seed):
     cases += f(fails)
     if fails:
       break
-  return dict(name=NAME, cases=cases, distinct=cases, bound='Conv1D: kernels 1-4 x dilation 1-2 x stride 1-2 x 6 padding modes; LayerNorm/BatchNorm x fast/two-pass variance x mask; ConvTranspose kernels 1-4 x stride 1-2 x SAME/VALID/CIRCULAR x transpose_kernel (bias linearity, linen == nnx); DenseGeneral / LinearGeneral over 10 axis listings x 2 feature shapes; Dense, Dropout, pooling, Embed (in-range, negative and out-of-range ids, linen and nnx); Einsum with bias (4 equations incl. permuted result letters, linen and nnx); max/min/avg pooling with explicit padding',
+  return dict(name=NAME, cases=cases, distinct=cases, bound='Conv1D: kernels 1-4 x dilation 1-2 x stride 1-2 x 6 padding modes; LayerNorm/BatchNorm x fast/two-pass variance x mask; ConvTranspose kernels 1-4 x stride 1-2 x SAME/VALID/CIRCULAR x transpose_kernel (bias linearity, linen == nnx); DenseGeneral / LinearGeneral over 10 axis listings x 2 feature shapes and with batch dims + a free dim; BatchNorm attribute x call-argument use_running_average (8 combinations, linen and nnx); Dense, Dropout, pooling, Embed (in-range, negative and out-of-range ids, linen and nnx); Einsum with bias (4 equations incl. permuted result letters, linen and nnx); max/min/avg pooling with explicit padding',
               failures=fails[:2], error=None)
 
 
